@@ -1720,6 +1720,7 @@ int yr_re_exec(
   RE_FIBER_LIST fibers;
   RE_FIBER* fiber;
   RE_FIBER* next_fiber;
+  RE_FIBER* prev_fiber;
 
   int bytes_matched;
   int max_bytes_matched;
@@ -2047,9 +2048,14 @@ int yr_re_exec(
         break;
 
       case ACTION_CONTINUE:
+        // _yr_re_fiber_sync can kill the fiber being synced (when it reaches
+        // a split that was already executed), so don't keep using it blindly:
+        // continue with whatever fiber follows its predecessor in the list.
+        prev_fiber = fiber->prev;
         FAIL_ON_ERROR_WITH_CLEANUP(
             _yr_re_fiber_sync(&fibers, &context->re_fiber_pool, fiber),
             _yr_re_fiber_kill_all(&fibers, &context->re_fiber_pool));
+        fiber = (prev_fiber != NULL) ? prev_fiber->next : fibers.head;
         break;
 
       default:
